@@ -168,7 +168,7 @@ func TestC05(t *testing.T) {
 	reports := filepath.Join(env.Out, fmt.Sprintf("reports-%d", env.Shard))
 	off := excluded()
 	nvec := 4
-	rapidSetup(env.Pick(500, 12000), 5)
+	rapidSetup(env.Pick(500, 5000), 5)
 	rapid.Check(t, func(rt *rapid.T) {
 		prog := gogen.Generate(rt, gogen.FlowProfile(off))
 		files := map[string]string{"main.go": prog.Main, "prelude.go": gogen.AnalysedPrelude}
